@@ -9,7 +9,8 @@ EXPLANATION = ("C09: (R1) every token is re-inserted, positionally intact, throu
                "debug id are carried over; (R5) a prefix is stripped only under starts_with of that same prefix, at most "
                "once; (R6) Hermes function maps and raw metadata are permuted by the same old-id mapping with "
                "non-panicking lookups; (R7) panic-freedom of the rewrite path."
-               " (R9) SourceMapBuilder::new stores the file as given; (R9b) local contents are loaded only for sources without contents; (R9c) rewrite is rewrite_with_mapping on every path.")
+               " (R9) SourceMapBuilder::new stores the file as given; (R9b) local contents are loaded only for sources without contents; (R9c) rewrite is rewrite_with_mapping on every path."
+               " (R11) the prefix computed for \"~\" is the leading run of components all sources share (the shared-prefix helper of C19).")
 NOT_DECIDED = "equality of the resolved strings before and after rewrite for all maps and option combinations (value-level)."
 
 
@@ -21,6 +22,8 @@ def r7(ctx):
 
 
 RULES = {
+    # the "~" prefix is computed by find_common_prefix: what it returns must be a common prefix of all sources
+    "C09.R11": lambda ctx: __import__("rules.pathrules", fromlist=["x"]).same_prefix(ctx, "C09.R11"),
     # "for Hermes maps every token resolves to the same enclosing function before and after": the scope lookup itself
     "C09.R10": lambda ctx: __import__("rules.detrules", fromlist=["x"]).hermes_lookup(ctx, "C09.R10"),
     "C09.RG": lambda ctx: __import__("rules.foundations", fromlist=["x"]).no_global_state(ctx, "C09.RG"),
